@@ -1223,6 +1223,16 @@ class Builder:
         if self._return_arrays:
             for array in self._mem_mgr.get_arrays_to_return():
                 self._build_cmds_return_array(array)
+            # Arrays from earlier subroutines that were written to in this one.
+            new_addresses = [a.address for a in self._mem_mgr.get_arrays_to_return()]
+            for address in sorted(self._mem_mgr.get_written_array_addresses()):
+                if address not in new_addresses:
+                    self.subrt_add_pending_command(
+                        ICmd(
+                            instruction=GenericInstr.RET_ARR,
+                            operands=[Address(address)],
+                        )
+                    )
 
     def _build_cmds_init_array(self, array: Array) -> None:
         commands: List[T_Cmd] = []
